@@ -356,7 +356,7 @@ func visitInstr(fr *frame, instr ssa.Instruction) continuation {
 				fr.env[instr] = &symref{elems: elems, idx: s, k: k}
 				break
 			}
-			fr.env[instr] = &elems[int(asInt64(fr.i.concretize(s, "element index")))]
+			fr.env[instr] = &elems[fr.i.classifyIndex(elems, s, k)]
 			break
 		}
 		switch x := x.(type) {
